@@ -702,3 +702,75 @@ Example ex_two_calls :
 Proof. vm_compute. split; reflexivity. Qed.
 Example ex_vocab : NoDup (map snd [([108; 105; 115; 116], 0); ([97], 1)]).
 Proof. repeat constructor; cbn; intuition discriminate. Qed.
+
+(* ------------------------------------------------------------------ rejected messages: discarding keeps the numbering in step *)
+Lemma ocd : open_counts_when_discarded = true.
+Proof. reflexivity. Qed.
+
+Lemma discard_strs l rest d cnt : 0 < d -> discard (strs l ++ rest) d cnt = discard rest d cnt.
+Proof.
+  intros D. induction l as [|a l IH]; [reflexivity|]. cbn [strs map app discard].
+  destruct (d <=? 0) eqn:E; [apply Z.leb_le in E; lia|]. exact IH.
+Qed.
+
+Definition PD (t : obj) : Prop :=
+  forall n d cnt rest, 0 < d -> discard (slice n t ++ rest) d cnt = discard rest d (cnt + opens t).
+
+Lemma discard_list xs : Forall PD xs -> forall n d cnt rest, 0 < d ->
+  discard (slice_list n xs ++ rest) d cnt = discard rest d (cnt + opens_list xs).
+Proof.
+  induction 1 as [|x r Hx _ IH]; intros n d cnt rest D.
+  - cbn [slice_list app opens_list]. rewrite Z.add_0_r. reflexivity.
+  - rewrite slice_list_cons, <- app_assoc, (Hx n d cnt _ D), (IH _ d _ rest D).
+    change (opens_list (x :: r)) with (opens x + opens_list r). rewrite Z.add_assoc. reflexivity.
+Qed.
+
+Ltac dstep D := cbn [app discard]; match goal with |- context [?d <=? 0] =>
+  let E := fresh in destruct (d <=? 0) eqn:E; [apply Z.leb_le in E; lia|clear E] end.
+
+(* whatever object lies in the discarded part -- any nesting, references, scopes -- its OPENs are counted and nothing else
+   changes: the discard depth is back where it was *)
+Theorem discard_slice : forall t, PD t.
+Proof.
+  apply obj_ind'.
+  - intros t L n d cnt rest D. destruct t; try discriminate; cbn [slice opens].
+    1-3: (dstep D; rewrite Z.add_0_r; reflexivity).
+    + (* text *) dstep D. rewrite ocd. rewrite <- app_assoc, discard_strs by lia. dstep D. try dstep D.
+      replace (d + 1 - 1) with d by lia. reflexivity.
+    + dstep D. rewrite ocd. rewrite <- app_assoc, discard_strs by lia. dstep D. try dstep D.
+      replace (d + 1 - 1) with d by lia. reflexivity.
+    + dstep D. rewrite ocd. rewrite <- app_assoc, discard_strs by lia. dstep D.
+      replace (d + 1 - 1) with d by lia. reflexivity.
+    + dstep D. rewrite ocd. rewrite <- app_assoc, discard_strs by lia. dstep D. try dstep D.
+      replace (d + 1 - 1) with d by lia. reflexivity.
+    + dstep D. rewrite ocd. rewrite <- app_assoc, discard_strs by lia. dstep D. try dstep D.
+      replace (d + 1 - 1) with d by lia. reflexivity.
+  - intros c xs F n d cnt rest D. rewrite slice_cont, opens_cont. dstep D. rewrite ocd.
+    rewrite <- !app_assoc, discard_strs by lia. rewrite (discard_list xs F (n + 1) (d + 1) (cnt + 1) _ ltac:(lia)).
+    dstep D. replace (d + 1 - 1) with d by lia. f_equal. lia.
+Qed.
+
+(* a receiver that rejects a container part-way (discardCount = 1) and drops the rest of its children up to its CLOSE ends
+   with discardCount 0, the unread input untouched, and its object counter advanced by exactly the OPENs the sender
+   spent on the dropped children: the two numberings stay in step, so the references of every later message resolve *)
+Theorem discard_rest_of_rejected xs n k cnt rest :
+  discard (slice_list n xs ++ TClose k :: rest) 1 cnt = (0, cnt + opens_list xs, rest).
+Proof.
+  assert (F : Forall PD xs) by (apply Forall_forall; intros x _; apply discard_slice).
+  rewrite (discard_list xs F n 1 cnt _ ltac:(lia)). cbn [discard]. cbn. destruct rest; reflexivity.
+Qed.
+
+(* every token sequence: the counter moves by the number of OPENs among the tokens consumed, discarded or not *)
+Lemma slice_count_opens : forall t n, count_opens (slice n t) = opens t.
+Proof.
+  assert (S : forall l r, count_opens (strs l ++ r) = count_opens r).
+  { induction l as [|a l IH]; intros r; [reflexivity|exact (IH r)]. }
+  assert (A : forall a b, count_opens (a ++ b) = count_opens a + count_opens b).
+  { induction a as [|t a IH]; intros b; [reflexivity|]. cbn [app count_opens]. destruct t; rewrite ?IH; lia. }
+  apply (obj_ind' (fun t => forall n, count_opens (slice n t) = opens t)).
+  - intros t L n. destruct t; try discriminate; cbn [slice opens count_opens]; rewrite ?S; reflexivity.
+  - intros c xs F n. rewrite slice_cont, opens_cont. cbn [count_opens]. rewrite S, A. cbn [count_opens]. f_equal.
+    rewrite Z.add_0_r. revert n. generalize 1. induction F as [|x r Hx _ IH]; intros z n; [reflexivity|].
+    rewrite slice_list_cons, A, Hx. change (opens_list (x :: r)) with (opens x + opens_list r). f_equal.
+    replace (n + z + opens x) with (n + opens x + z) by lia. apply IH.
+Qed.
